@@ -86,6 +86,9 @@ def run(ctx) -> None:
     from . import lockstep
     lockstep.zip_longest_table(ctx, "R01.11")
     ctx.floor("zip_longest_cells_decided", 100)
+    from . import tooltables
+    tooltables.tool_tables(ctx, "R01.12")
+    ctx.floor("tool_cells_decided", 120)
     ctx.floor("merge_cells", 6)
     ctx.floor("yield_sites", 18)
     ctx.floor("source_loops", 4)
